@@ -1,6 +1,6 @@
 (* C01 - property theorems.  Statements, `exact <lemma>`, Print Assumptions. *)
-From Coq Require Import String ZArith List Bool.
-From HD Require Import Base.Val C01_Model C01_Proofs C01_Proofs_Frames C01_Proofs_Lut.
+From Coq Require Import String ZArith List Bool Permutation.
+From HD Require Import Base.Val C01_Model C01_Proofs C01_Proofs_Frames C01_Proofs_Lut C01_Proofs_Value C01_Proofs_Full.
 Import ListNotations.
 Open Scope Z_scope.
 
@@ -89,19 +89,8 @@ Theorem C01_not_included_empty : forall c a inc om j,
 Proof. exact not_included_empty. Qed.
 Print Assumptions C01_not_included_empty.
 
-(* FULL STATEMENT WANTED (C01_roundtrip):
-     forall c i perm st, valid c i -> Permutation perm (zrange (nsrc c)) ->
-       construct c i perm = Ok st ->
-       forall lazy, read_by_instance lazy st (zrange (nsrc c)) false = Ok (expected c i).
-   PROVED (partial): the round trip of each (segment, source plane) pair through
-   the stored object - look-up, byte range (eager or lazy), bit offset, decoding,
-   omission - returns the plane [seg_plane] that the constructor derived from
-   the input, for every segmentation type, bit depth, frame size and omission
-   setting.  NOT PROVED: that [seg_plane] equals [expected_pixel] for every
-   dtype/layout (value-level case analysis of _check_and_cast_pixel_array /
-   _get_segment_pixel_array), that [frame_ok] holds for every valid input, and
-   the transposition done by [read_plane]; these three are evaluated on every
-   valid case of the correspondence run instead ([spec_holds]). *)
+(* building block of the full theorem below: the round trip of one
+   (segment, source plane) pair through the stored object *)
 Theorem C01_roundtrip_partial : forall c i perm st a inc om lazy s j,
   construct c i perm = Ok st -> check_and_cast c i = Ok a -> included c a = (inc, om) ->
   1 <= npix c ->
@@ -143,3 +132,116 @@ Example C01_nonvacuous_roundtrip :
   expected c3 i3 = [[[2];[3];[0]]].
 Proof. vm_compute. repeat split. eexists. repeat split. Qed.
 Print Assumptions C01_nonvacuous_roundtrip.
+
+(* ------------------------------------------------------------------ *)
+(* the full round trip                                                   *)
+(* ------------------------------------------------------------------ *)
+(* residue 1: for valid inputs the plane derived by _check_and_cast_pixel_array
+   + _get_segment_pixel_array is the specification, for every dtype and layout
+   (BINARY / FRACTIONAL; the value also fits the allocated bits) *)
+Theorem C01_seg_plane_is_expected : forall c i a j k p,
+  valid c i = true -> check_and_cast c i = Ok a -> ty c <> LABELMAP ->
+  0 <= j < nsrc c -> 0 <= k < zlen (segs c) -> 0 <= p < npix c ->
+  nthz p (seg_plane c a (nthz k (segs c) 0) j) 0 = expected_pixel c i j p k /\
+  value_range c (expected_pixel c i j p k).
+Proof. exact seg_plane_expected. Qed.
+Print Assumptions C01_seg_plane_is_expected.
+
+(* ... and for LABELMAP (label maps, and 4-D stacks through _combine_segments +
+   the segment-number mapping): the stored label is a described segment or 0
+   and its one-hot expansion is the specification *)
+Theorem C01_label_plane_is_expected : forall c i a j p,
+  valid c i = true -> check_and_cast c i = Ok a -> ty c = LABELMAP ->
+  0 <= j < nsrc c -> 0 <= p < npix c ->
+  let L := nthz p (seg_plane c a 0 j) 0 in
+  In L (0 :: segs c) /\
+  forall k, 0 <= k < zlen (segs c) ->
+    (if remap_from 1 L (segs c) =? k + 1 then 1 else 0) = expected_pixel c i j p k.
+Proof. exact label_plane_expected. Qed.
+Print Assumptions C01_label_plane_is_expected.
+
+(* residue 2: every derived plane has Rows*Columns values that fit the allocated
+   bits (0/1; <= 255; <= 255 or <= 65535 according to the largest segment number) *)
+Theorem C01_frame_ok_valid : forall c i a s j,
+  valid c i = true -> check_and_cast c i = Ok a -> In s (seg_iter c) -> 0 <= j < nsrc c ->
+  frame_ok c (seg_plane c a s j).
+Proof. exact frame_ok_valid. Qed.
+Print Assumptions C01_frame_ok_valid.
+
+(* every fetch - stored frame or omitted empty plane, eager or lazy - is the derived plane *)
+Theorem C01_fetch_correct : forall c i perm st a lazy s j,
+  valid c i = true -> Permutation perm (zrange (nsrc c)) ->
+  construct c i perm = Ok st -> check_and_cast c i = Ok a ->
+  In s (seg_iter c) -> 0 <= j < nsrc c ->
+  fetch lazy st s j = seg_plane c a s j.
+Proof. exact fetch_correct. Qed.
+Print Assumptions C01_fetch_correct.
+
+(* THE PROPERTY: whatever valid mask is stored (any type, layout, dtype, frame
+   size, omission setting; any plane sort permutation), reading all source
+   instances in the order supplied returns the specification [expected] - the
+   input, fractional values rounded half-even to the stored quantisation - from
+   the in-memory / eagerly read object (lazy = false) and from the lazy reader
+   (lazy = true); native syntaxes through the modelled bytes, encapsulated
+   syntaxes through the decoded frame list (codec premise K) *)
+Theorem C01_roundtrip : forall c i perm st,
+  valid c i = true -> Permutation perm (zrange (nsrc c)) -> construct c i perm = Ok st ->
+  forall lazy, read_by_instance lazy st (zrange (nsrc c)) false = Ok (expected c i).
+Proof. exact roundtrip. Qed.
+Print Assumptions C01_roundtrip.
+
+(* the same through get_pixels_by_source_frame for a multi-frame source *)
+Theorem C01_roundtrip_by_frame : forall c i perm st,
+  valid c i = true -> Permutation perm (zrange (nsrc c)) -> construct c i perm = Ok st ->
+  forall lazy, read_by_frame lazy st (one_to (nsrc c)) true = Ok (expected c i).
+Proof. exact roundtrip_by_frame. Qed.
+Print Assumptions C01_roundtrip_by_frame.
+
+(* the constructor accepts every valid input that has at least one described
+   segment (and max_fractional_value >= 1 for FRACTIONAL): no ValueError /
+   TypeError, and at least one frame is left to store (no IndexError) *)
+Theorem C01_construct_succeeds : forall c i perm,
+  valid c i = true -> Permutation perm (zrange (nsrc c)) ->
+  1 <= zlen (segs c) -> (ty c = FRACTIONAL -> 1 <= maxfrac c) ->
+  exists st, construct c i perm = Ok st.
+Proof. exact construct_succeeds. Qed.
+Print Assumptions C01_construct_succeeds.
+
+(* THE PROPERTY, unconditional form: a valid mask is accepted and read back as
+   the specification, eagerly and lazily *)
+Theorem C01_roundtrip_total : forall c i perm,
+  valid c i = true -> Permutation perm (zrange (nsrc c)) ->
+  1 <= zlen (segs c) -> (ty c = FRACTIONAL -> 1 <= maxfrac c) ->
+  exists st, construct c i perm = Ok st /\
+    forall lazy, read_by_instance lazy st (zrange (nsrc c)) false = Ok (expected c i) /\
+                 read_by_frame lazy st (one_to (nsrc c)) true = Ok (expected c i).
+Proof.
+  intros c i perm Hv Hp HS Hm. destruct (construct_succeeds c i perm Hv Hp HS Hm) as (st & Hc).
+  exists st. split; [exact Hc|]. intros lazy.
+  split; [now apply roundtrip with (perm := perm) | now apply roundtrip_by_frame with (perm := perm)].
+Qed.
+Print Assumptions C01_roundtrip_total.
+
+(* non-vacuity of [valid] and of the hypotheses of C01_roundtrip: one input per
+   segmentation type / layout / dtype is valid, is accepted by the constructor
+   and is not trivially empty *)
+Example C01_nonvacuous_valid :
+  let c1 := Cfg BINARY DInt 1 1 true [1; 2] 1 3 1 3 3 true in
+  let i1 := Stack [[[1;0];[0;0];[0;1]]; [[0;0];[0;0];[0;0]]; [[0;1];[1;0];[1;0]]] in
+  let c2 := Cfg LABELMAP DInt 1 1 false [2; 300] 1 3 1 3 2 true in
+  let i2 := Label [[0;300;2]; [2;2;0]] in
+  let c3 := Cfg FRACTIONAL DFloat 2 3 true [1] 1 3 1 3 1 true in
+  let i3 := Stack [[[1];[2];[0]]] in
+  let c4 := Cfg LABELMAP DFloat 4 1 true [5; 7] 1 2 1 2 2 false in
+  let i4 := Stack [[[4;0];[0;0]]; [[0;4];[0;4]]] in
+  let c5 := Cfg FRACTIONAL DInt 1 100 true [1; 2] 2 1 2 1 1 false in
+  let i5 := Label [[2; 1]] in
+  valid c1 i1 = true /\ valid c2 i2 = true /\ valid c3 i3 = true /\ valid c4 i4 = true /\
+  valid c5 i5 = true /\
+  (exists st, construct c1 i1 [2;0;1] = Ok st) /\ (exists st, construct c2 i2 [1;0] = Ok st) /\
+  (exists st, construct c3 i3 [0] = Ok st) /\ (exists st, construct c4 i4 [0;1] = Ok st) /\
+  (exists st, construct c5 i5 [0] = Ok st) /\
+  expected c4 i4 = [[[1;0];[0;0]]; [[0;1];[0;1]]] /\ expected c5 i5 = [[[0;100];[100;0]]] /\
+  valid c2 (Label [[0;300;3]; [2;2;0]]) = false /\ valid c1 (Stack [[[1;0];[0;0];[0;2]]; []; []]) = false.
+Proof. vm_compute. repeat split; eexists; reflexivity. Qed.
+Print Assumptions C01_nonvacuous_valid.
